@@ -1,5 +1,6 @@
 """C20 -- executor lifecycles leak no parent-side resources."""
 from ..rules import process as P
+from ..rules import liveness as L
 from ..rules import shutdown as S
 from ..rules import broken as B
 from ..rules import tracker as T
@@ -19,6 +20,8 @@ EXPLANATION = (
 def run(e, R, tier):
     R.run_rules(e, [
         P.r_leak,
+        L.r_wake,
+        L.r_mgr_exit,
         S.r_shutdown_seq,
         B.r_kill_tree,
         P.r_spawn_fresh,
